@@ -1,6 +1,7 @@
 /- Driver.Diff — line protocol for the `diff` engine (C16).  Strings are opaque tokens (hex-encoded by the
    harness, `-` = NULL); the model only compares them. -/
 import Hw.Attr.Diff
+import Hw.Attr.DiffBuildApply
 import Driver.Util
 namespace Driver.DiffEng
 open Hw.Diff Driver
@@ -137,6 +138,18 @@ def step (st : State) (line : String) : State × String :=
     | some (_, ta), some (_, tb) =>
       let r := build ta tb
       (st, "ret=" ++ toString r.1 ++ " n=" ++ toString r.2.length ++ r.2.foldl (fun s e => s ++ " " ++ showEntry e) "")
+    | _, _ => bad
+  | ["hyp", a, b] =>
+    -- the decidable hypotheses of the whole-tree theorems (C16_apply_build, C16_reverse_apply_build) evaluated on the
+    -- topologies as the harness observed them; statistics only, the harness never emits this op
+    match getT st a, getT st b with
+    | some (_, ta), some (_, tb) =>
+      let r := build ta tb
+      let f (b : Bool) : String := if b then "1" else "0"
+      (st, "hyp ret=" ++ toString r.1 ++ " keysNodup=" ++ f (decide (KeysNodup ta)) ++ " infoNames=" ++ f (decide (InfoNamesDistinct ta))
+        ++ " depths=" ++ f (decide (DepthsBelowNbl ta)) ++ " skeleton=" ++ f (decide (SameSkeleton ta tb))
+        ++ " memA=" ++ f (decide (MemConsistent ta)) ++ " memB=" ++ f (decide (MemConsistent tb))
+        ++ " distinctSlots=" ++ f (decide (DistinctSlots ta.nbl r.2)))
     | _, _ => bad
   | "apply" :: s :: rev :: es =>
     match getT st s, parseBool rev, es.mapM parseEntry with
